@@ -39,6 +39,7 @@ def run(ctx):
                                 opts={"depth": ctx.scale(2, 2), "n_inputs": ctx.scale(3, 6),
                                       "depth2_procs": ctx.scale(3, 10), "depth2_attempts": ctx.scale(12, 40)})
     shape = []
+    side = []
     concrete_ops = set()
     for r in recs:
         if r["error"]:
@@ -58,6 +59,8 @@ def run(ctx):
                 ctx.violation(x["key"], x["what"], x)
             elif x["kind"] == "shape-mismatch":
                 shape.append(x)
+            elif x["kind"] == "side-condition":
+                side.append(x)
             elif x["kind"] == "impure":
                 pass  # reported by C07
             elif x["kind"] == "observer-exception":
@@ -77,6 +80,10 @@ def run(ctx):
             continue
         ctx.violation(x["key"], x["what"] + " (model/real correspondence)", x,
                       no_input=x["att"]["op"] not in concrete_ops)
+    for x in side:
+        # accepted by the real check although the theorem's semantic side condition fails on a sampled input
+        k = sem_key.get((x["program"], json.dumps(x["att"], sort_keys=True), json.dumps(x["hist"], sort_keys=True)))
+        ctx.violation(k or x["key"], x["what"] + " (correspondence B: accepted ⇒ side condition)", x, no_input=k is None)
     ctx.evaluations = ctx.counts.get("pairs-executed", 0)
     # end-to-end compositions: the shipped application schedules against their algorithm
     import apps_sem
